@@ -118,8 +118,10 @@ CMP = {'fp.eq': '=', 'fp.lt': '<', 'fp.leq': '<=', 'fp.gt': '>', 'fp.geq': '>='}
 
 
 class Swap:
-    def __init__(self):
+    def __init__(self, u2r=False):
         self.divisors = []   # terms appearing as denominators (each needs a separate non-zero obligation)
+        self.u2r = u2r       # opt-in: conversion of a NON-constant 32-bit unsigned to double becomes the uninterpreted sq_u2r (axioms: u2r_axioms)
+        self.u2r_args = []
 
     def tr(self, x):
         if isinstance(x, list):
@@ -174,14 +176,35 @@ class Swap:
                 c = bvconst(arg)
                 if c is not None:
                     return rat(Fraction(c[0]))
+                if self.u2r:
+                    a = self.tr(arg)
+                    if dump(a) not in self.u2r_args:
+                        self.u2r_args.append(dump(a))
+                    return ['sq_u2r', a]
                 raise Undecided('fp2real: to_fp_unsigned conversion of a non-constant: ' + dump(x)[:100])
             return [self.tr(y) for y in x]
         return x
 
 
-def swap_text(src):
+def u2r_axioms(args):
+    """Ground instances, for the argument terms that occur, of facts true of the conversion unsigned(32 bit) -> real (value preserving): non-negative,
+    zero iff zero, one at one, strictly monotone, successor adds one (no wrap).  sq_u2r is otherwise uninterpreted, so whatever is proved holds for the
+    real conversion; an argument of another width is a sort error in the solver -> undecided."""
+    ax = []
+    for s in args:
+        ax.append('(assert (>= (sq_u2r %s) 0.0))' % s)
+        ax.append('(assert (= (= %s (_ bv0 32)) (= (sq_u2r %s) 0.0)))' % (s, s))
+        ax.append('(assert (=> (= %s (_ bv1 32)) (= (sq_u2r %s) 1.0)))' % (s, s))
+        for t in args:
+            if s != t:
+                ax.append('(assert (= (bvult %s %s) (< (sq_u2r %s) (sq_u2r %s))))' % (s, t, s, t))
+                ax.append('(assert (=> (and (= %s (bvadd %s (_ bv1 32))) (not (= %s (_ bv4294967295 32)))) (= (sq_u2r %s) (+ (sq_u2r %s) 1.0))))' % (t, s, s, t, s))
+    return ax
+
+
+def swap_text(src, u2r=False):
     """returns (forms as text list without check-sat/get-value/exit, Swap object)"""
-    sw = Swap()
+    sw = Swap(u2r)
     out = []
     for form in parse(tokenize(src)):
         if isinstance(form, list) and form:
@@ -193,6 +216,10 @@ def swap_text(src):
             if form[0] == 'set-option':
                 continue
         out.append(dump(sw.tr(form)))
+    if sw.u2r_args:
+        k = 1 if out and out[0].startswith('(set-logic') else 0
+        out.insert(k, '(declare-fun sq_u2r ((_ BitVec 32)) Real)')
+        out.extend(u2r_axioms(sw.u2r_args))
     return out, sw
 
 
